@@ -102,7 +102,7 @@ for _c, _t in [('C03', 'placement: every live reservation inside the pool, point
         level='other',
         text='BOUNDED stand-in, not a proof. modeMemoryPool_t::{reserve, resize, setAlignment, addModeMemoryRef, removeModeMemoryRef, numReservations} and serial::memoryPool::{makeBuffer, slice, setPtr, memcpy} extracted verbatim, std::set stub ordered by the real comparator; '
              'from every state of the family F (fresh pool, <= 2 (quick) / 3 (thorough) reservations of symbolic size at the packed offsets, optional slice, any subset released: fragmented pools, all reachable through the public operations) one symbolic operation is executed and checked: ' + _t +
-             '. Quick: <= 2 reservations, sizes below 2^8, alignment 128 (-> 8); thorough: <= 3 reservations, sizes below 2^9, alignments {128->8, 4096->128, 8->128}. The unit tests reserve a few fixed sizes and never fragment the pool.',
+             '. Quick: <= 2 reservations, sizes below 2^8, alignment 128 (-> 8); thorough: <= 3 reservations (<= 2 before a reserve), sizes below 2^9, alignments {128->8, 4096->128}. The unit tests reserve a few fixed sizes and never fragment the pool.',
         note='bounds: histories = state family F + one operation; <= 4 live reservations; alignment 128 (-> 8 for setAlignment) in quick, six pairs in thorough. Trusted: CBMC C++ front end, set/buffer stubs, addresses modelled as integers, comparator tie-break on ghost ids. Not reached: the memoryPool handle forwarders, longer histories.',
         technique='CBMC on mechanically extracted real functions from an enumerated reachable state family (bounded), ghost content tracking',
         design='5/C03-C04, 10.2')
